@@ -31,7 +31,7 @@ ASSUMPTIONS = ["streams start at a frame boundary and end with a sentinel frame,
                "by a frame start", "end-to-end sessions whose bytes were not all delivered before the receive timeout are "
                "counted as inconclusive sessions, never as violations"]
 REQUIRED = ["e2e_quiet_spells_between_reads", "beast_run_of_64_or_more_non_mode_s_frames", "two_clients_parsing_in_two_threads", "e2e_empty_parts_in_mid_stream", "batches_read_back_after_later_reads", "beast_single", "beast_double", "beast_random", "beast_cut_inside_escape", "beast_cut_after_frame_start",
-            "beast_rssi", "raw_single", "raw_double", "sky_single", "sky_double", "netsource", "netsource_commb_backlog_over_1000", "second_client_alive", "e2e_sessions", "e2e_client_of_another_format_alive", "client_of_another_format_alive"]
+            "beast_rssi", "raw_single", "raw_double", "sky_single", "sky_double", "netsource", "netsource_lower_or_mixed_case_frames", "netsource_commb_backlog_over_1000", "second_client_alive", "e2e_sessions", "e2e_client_of_another_format_alive", "client_of_another_format_alive"]
 # e2e_midframe_boundary (a recv() boundary inside a frame was actually observed) is reported in the evidence but not
 # required: TCP may coalesce pieces on a loaded machine and that must not turn the verdict inconclusive
 
@@ -667,8 +667,15 @@ def cases(ctx):
                     x, n = rand_msg(rng, False)
                     m = "%014X" % x
                 t += rng.choice((0.0, 0.0, rng.uniform(0, 0.5)))     # receivers with a coarse clock stamp several frames alike
+                # an AVR feed may spell its hex digits in lower case ('*a0...;' - the raw reader hands them on as received)
+                if k % 3 == 1:
+                    m = m.lower()
+                elif k % 3 == 2:
+                    m = "".join(ch.lower() if rng.random() < 0.5 else ch for ch in m)
                 b.append([m, t])
             batches.append(b)
+        if k % 3:
+            ctx.hit("netsource_lower_or_mixed_case_frames")
         yield "netsource", {"batches": batches}
     # a feed with (almost) no ADS-B for a long time: thousands of Comm-B replies pile up before the next hand-over and
     # every one of them still has to reach the decoder
